@@ -56,41 +56,48 @@ def cutZoomSectionsAt (ips : Nat) (recs : List ZRec) (cuts : List Nat) : List Se
 def BIGBED_MAGIC : Nat := 0x8789F2EB
 
 /-- input: chromosomes in first-appearance order with their sizes and entries; `autosql` = the stored text (without
-    the terminating NUL), `fieldCount` = what `write_pre` derives from it -/
-def writeBigBed (o : Opts) (autosql : List Nat) (fieldCount : Nat) (input : List (List Nat × Nat × List BedE)) : List Nat :=
+    the terminating NUL), `fieldCount` = what `write_pre` derives from it; `z`: see `BW.Blobs` -/
+def writeBigBedZ (o : Opts) (z : Blobs) (autosql : List Nat) (fieldCount : Nat) (input : List (List Nat × Nat × List BedE)) :
+    List Nat × Bool :=
   let autosqlOff := 64 + 240
   let summaryOff := autosqlOff + autosql.length + 1
   let fullDataOff := summaryOff + 40
   let preData := fullDataOff + 8
-  let dataSecs := input.zipIdx.flatMap fun (c, id) => cutBedSections o.itemsPerSlot id (c.2.2.length + 1) c.2.2
+  let dataSecs0 := input.zipIdx.flatMap fun (c, id) => cutBedSections o.itemsPerSlot id (c.2.2.length + 1) c.2.2
+  let (dataSecs, z1, ok1) := substBlobs z dataSecs0
   let (dataLeaves, dataEnd) := leavesOf dataSecs preData
   let dataBytes := dataSecs.flatMap (·.bytes)
   let chromBytes := chromTreeBytes (input.zipIdx.map fun (c, id) => (c.1, id, c.2.1))
   let indexStart := dataEnd + chromBytes.length
   let idxBytes := indexBytes o.blockSize o.itemsPerSlot dataLeaves indexStart
   let zoomStart := indexStart + idxBytes.length
-  let zooms := o.zoomSizes.foldl (fun (acc : List (Nat × Nat × Nat) × List Nat × Nat) size =>
-      let secs := input.zipIdx.flatMap fun (c, id) =>
+  let zooms := o.zoomSizes.foldl (fun (acc : (List (Nat × Nat × Nat) × List Nat × Nat) × Blobs × Bool × Nat) size =>
+      let secs0 := input.zipIdx.flatMap fun (c, id) =>
         let (rs, cuts) := bedZoomRecs id size (c.2.2.map fun x => (x.s, x.e))
         cutZoomSectionsAt o.itemsPerSlot rs cuts
-      if secs.isEmpty then acc else
-      let (zl, zend) := leavesOf secs acc.2.2
+      if secs0.isEmpty then acc else
+      let (secs, z', ok') := substBlobs acc.2.1 secs0
+      let a := acc.1
+      let (zl, zend) := leavesOf secs a.2.2
       let zdata := secs.flatMap (·.bytes)
       let zidx := indexBytes o.blockSize o.itemsPerSlot zl zend
-      (acc.1 ++ [(size, acc.2.2, zend)], acc.2.1 ++ zdata ++ zidx, zend + zidx.length))
-    ([], [], zoomStart)
-  let (zoomHdrs, zoomBytes, _) := zooms
+      ((a.1 ++ [(size, a.2.2, zend)], a.2.1 ++ zdata ++ zidx, zend + zidx.length), z', acc.2.2.1 && ok', max acc.2.2.2 (maxLen secs0)))
+    (([], [], zoomStart), z1, ok1, maxLen dataSecs0)
+  let ((zoomHdrs, zoomBytes, _), zrest, ok, ubs) := zooms
   let sms := input.map fun c => BSUM.ofSegs (SW.sweepAll 4294967295 (c.2.2.map fun x => (x.s, x.e)) [] []).1
   let t := match sms with
     | [] => (⟨0, 0, 0, 0, 0⟩ : BSUM.Sm)
     | s :: rest => rest.foldl BSUM.merge s
   let n := (input.map (·.2.2.length)).sum
   let header := le 4 BIGBED_MAGIC ++ le 2 4 ++ le 2 zoomHdrs.length ++ le 8 dataEnd ++ le 8 fullDataOff ++ le 8 indexStart ++
-    le 2 fieldCount ++ le 2 fieldCount ++ le 8 autosqlOff ++ le 8 summaryOff ++ le 4 0 ++ le 8 0
+    le 2 fieldCount ++ le 2 fieldCount ++ le 8 autosqlOff ++ le 8 summaryOff ++ le 4 (if z.isSome then ubs else 0) ++ le 8 0
   let zoomDir := zoomHdrs.flatMap fun z => le 4 z.1 ++ le 4 0 ++ le 8 z.2.1 ++ le 8 z.2.2
   let zoomDirPad := List.replicate (240 - zoomDir.length) 0
   let summary := le 8 t.bases ++ f64 t.mn ++ f64 t.mx ++ f64 t.sum ++ f64 t.sumsq
-  header ++ zoomDir ++ zoomDirPad ++ autosql ++ [0] ++ summary ++ le 8 n ++ dataBytes ++ chromBytes ++ idxBytes ++
-    zoomBytes ++ le 4 BIGBED_MAGIC
+  (header ++ zoomDir ++ zoomDirPad ++ autosql ++ [0] ++ summary ++ le 8 n ++ dataBytes ++ chromBytes ++ idxBytes ++
+    zoomBytes ++ le 4 BIGBED_MAGIC, ok && (zrest.map (·.isEmpty)).getD true)
+
+def writeBigBed (o : Opts) (autosql : List Nat) (fieldCount : Nat) (input : List (List Nat × Nat × List BedE)) : List Nat :=
+  (writeBigBedZ o none autosql fieldCount input).1
 
 end BW
